@@ -32,6 +32,8 @@ def _verify_one(job):
     if "ctx" not in _W:
         _worker_init()
     from pyvc.verify import verify_function
+    from pyvc import verify as _vf
+    _vf.PHASE[0] = "retry" if only is not None else "first"
     from pyvc.exec import Exec
     from contracts import common
     repo, world, ex0, R = _W["ctx"]
